@@ -3,6 +3,7 @@ import z3
 
 from .core import (Val, Sc, RefV, NoneV, TupleV, Cont, PyConst, FuncV, CellLoc, FieldLoc, ItemLoc, ElemLoc,
                    TermLoc, VCError, fresh)
+from .core import simp
 from .types import (T, INT, REAL, BOOL, STR, BYTES, OPTINT, IDENT, ANYREF, Ref, Str, Bytes, NONE, Ident,
                     ident_of, cls_of)
 
@@ -44,7 +45,7 @@ class ContMixin:
         return c.loc.read(st)
 
     def c_has_arr(self, c, st):
-        return c.t.acc('has')(self.c_term(c, st))
+        return simp(c.t.acc('has')(self.c_term(c, st)))
 
     def c_len(self, c, st):
         t = c.t
@@ -121,7 +122,7 @@ class ContMixin:
             i = n + idx.v
         else:
             i, k = self.num(idx, st)
-            if not (isinstance(idx, PyConst)):
+            if not (isinstance(idx, PyConst)) and not st.spec:
                 i = z3.If(i < 0, i + n, i)
         self.pend_raise(st, z3.Or(i < 0, i >= n), 'IndexError', frame, node)
         return i
